@@ -13,7 +13,8 @@
        counting as the configured default)"                            -> C07_mix
        (the nesting checker runs to completion first: a tree with both defects gets (a))
    (c) "on supported constructs no other exception escapes, and every query that is not refused is
-       translated"                                                     -> C07_translated
+       translated"                                                     -> C07_no_other_exception,
+                                                                          C07_translated
    The code violates (a) and (b): F8 (a nested / object container none of whose children is a leaf is
    not recognised).  (c) holds in full since the repair of F7 (commit 8352212: a range bound under `-`
    made visit_range read `.value` of a Prohibit: AttributeError); regression examples are kept. *)
@@ -38,6 +39,13 @@ Definition C07_mix_statement : Prop :=
 Definition C07_translated_statement : Prop :=
   forall cfg t, supported t = true -> wf_config cfg = true ->
     ~ container_misuse cfg t -> ~ mix cfg t -> exists j, build cfg t = ROk j.
+
+(* "on supported constructs no other exception escapes": whatever the builder raises on a supported tree is
+   one of the three documented exceptions — none of the XOther outcomes of the model (AttributeError,
+   ValueError, IndexError, TypeError), which unsupported trees do reach (Example range_bound_without_value) *)
+Definition C07_no_other_exception_statement : Prop :=
+  forall cfg t e, supported t = true -> wf_config cfg = true ->
+    build cfg t = RExc e -> e = XNested \/ e = XObject \/ e = XMix.
 
 (* ---- partial statements: the guard removes exactly the finding F8
    containers_have_leaf cfg : every ancestor of a declared nested / object path is the parent of a
@@ -114,6 +122,15 @@ Proof.
   - exfalso. apply Hnm. apply misuse_mono. exact Hm.
   - contradiction.
   - exact Hb.
+Qed.
+
+Theorem C07_no_other_exception : C07_no_other_exception_statement.
+Proof.
+  intros cfg t e Hs Hwf He.
+  destruct (build_cases cfg t Hs Hwf) as [[e' [Hk [Hb _]]]|[_ [[_ Hb]|[_ [j Hb]]]]];
+    rewrite Hb in He; inversion He; subst.
+  - destruct Hk; auto.
+  - auto.
 Qed.
 
 (* ---- refutations of the full statements on the unchanged code *)
@@ -230,5 +247,6 @@ Print Assumptions C07_container_partial.
 Print Assumptions C07_container_sound.
 Print Assumptions C07_mix_partial.
 Print Assumptions C07_translated.
+Print Assumptions C07_no_other_exception.
 Print Assumptions C07_container_refuted.
 Print Assumptions C07_mix_refuted.
